@@ -394,7 +394,9 @@ func checkC09(c *Check, p *Program) {
 						expires = true
 					}
 				}
-				c.Decide(expires && sel.Blocking, "C09.H3", FuncName(fn)+" relayed response expires after one resend interval", p.InstrPos(in), "select {result <- status, <-time.After(config.ResendInterval), <-done}", "the relayed connection-state response is kept for another time than one resend interval: a surplus response of a gateway that then dies is taken as the answer to the next heartbeat")
+				// a non-blocking offer on the unbuffered result channel (obligation above) expires at once
+				instant := !sel.Blocking && len(sel.States) == 1
+				c.Decide((expires && sel.Blocking) || instant, "C09.H3", FuncName(fn)+" relayed response expires after one resend interval", p.InstrPos(in), "select {result <- status, <-time.After(config.ResendInterval), <-done} or a non-blocking offer", "the relayed connection-state response is kept for another time than one resend interval: a surplus response of a gateway that then dies is taken as the answer to the next heartbeat")
 			} else {
 				c.Fail("C09.H3", FuncName(fn)+" relayed response expires after one resend interval", p.InstrPos(in), "the response is handed over by a plain blocking send")
 			}
@@ -463,12 +465,24 @@ func checkC09(c *Check, p *Program) {
 	// serve: connect exactly on those two errors
 	sn := FuncName(t.serve)
 	procRes := ssa.Value(t.procCall)
-	isRetryFact := func(f Cmp) bool {
-		if f.Op != token.EQL {
-			return false
+	// "processing ended with sentinel g": err == g, or errors.Is(err, g) (true for g itself and for an error
+	// wrapping it - the same outcome carrying more text)
+	isSentinelFact := func(f Cmp, g *ssa.Global) bool {
+		if f.Op == token.EQL && ((f.X == procRes && isGlobalLoad(f.Y, g)) || (f.Y == procRes && isGlobalLoad(f.X, g))) {
+			return true
 		}
+		return cmpIsBool(f, true, func(v ssa.Value) bool {
+			call, ok := v.(*ssa.Call)
+			if !ok || !funcIs(calleeObj(call), "errors", "", "Is") {
+				return false
+			}
+			args := call.Common().Args
+			return len(args) == 2 && args[0] == procRes && isGlobalLoad(args[1], g)
+		})
+	}
+	isRetryFact := func(f Cmp) bool {
 		for _, g := range []*ssa.Global{gFailed, gDisc} {
-			if (f.X == procRes && isGlobalLoad(f.Y, g)) || (f.Y == procRes && isGlobalLoad(f.X, g)) {
+			if isSentinelFact(f, g) {
 				return true
 			}
 		}
@@ -521,7 +535,7 @@ func checkC09(c *Check, p *Program) {
 		for _, b := range t.serve.Blocks {
 			for _, s := range b.Succs {
 				f, ok := edgeFact(b, s)
-				if !ok || f.Op != token.EQL || !((f.X == procRes && isGlobalLoad(f.Y, g)) || (f.Y == procRes && isGlobalLoad(f.X, g))) {
+				if !ok || !isSentinelFact(f, g) {
 					continue
 				}
 				found = true
